@@ -284,7 +284,7 @@ class Tool:
         self.m = m
         self.dir = tempfile.mkdtemp(prefix="c05_")
 
-    def export(self, frames, keylog):
+    def export(self, frames, keylog, extra=()):
         import dpkt
         m = self.m
         cap, log, out = (os.path.join(self.dir, x) for x in ("in.pcapng", "keys.log", "out.pcapng"))
@@ -297,7 +297,7 @@ class Tool:
         m.sessions.clear()
         m.quic_sessions.clear()
         argv = sys.argv
-        sys.argv = ["tlexport", "-i", cap, "-s", log, "-o", out]
+        sys.argv = ["tlexport", "-i", cap, "-s", log, "-o", out] + list(extra)
         try:
             with fw.quiet():
                 m.run()
@@ -335,8 +335,8 @@ def e2e_frames(case, drop=()):
     return frames
 
 
-def e2e_fails(tool, conn, drop=()):
-    got, crash = tool.export(e2e_frames(conn["case"], drop), conn["keylog"])
+def e2e_fails(tool, conn, drop=(), extra=()):
+    got, crash = tool.export(e2e_frames(conn["case"], drop), conn["keylog"], extra)
     if crash:
         return crash, None, crash
     for d in "cs":
@@ -399,12 +399,19 @@ def e2e(ctx, tool, nconn, nvar):
             o["runs"] += 1
             ctx.count(("e2e", n, v, sorted(feats), case["isn"], case["moves"], case["dups"]), nontrivial=bool(feats))
             ctx.hist("e2e_features", ver + ":" + ("+".join(sorted(feats)) or "plain"))
-            r = e2e_fails(tool, vconn)
+            # every third schedule also runs with the checksum test on (all checksums are valid; the capture holds the
+            # peers' pure ACKs, whose sequence numbers equal those of the next data segments)
+            extra = ("-c",) if v % 3 == 1 else ()
+            ctx.hist("e2e_options", " ".join(extra) or "(none)")
+            r = e2e_fails(tool, vconn, extra=extra)
+            if r is not None and extra and e2e_fails(tool, vconn) is not None:
+                extra = ()                # fails without -c as well: classify it as a matter of the schedule alone
             if r is not None:
                 o["violations"] += 1
                 if len(ctx.failures) >= 16:
                     continue
-                left, drop, res = classify(case, lambda c, d: e2e_fails(tool, dict(conn, case=c), d))
+                left, drop, res = classify(case, lambda c, d: e2e_fails(tool, dict(conn, case=c), d, extra))
+                left = list(left) + (["-c"] if extra else [])
                 ctx.fail("C05:{" + ",".join(left) + "}:" + res[0],
                          f"the tool exports different plaintext streams for the same {ver} connection delivered with another TCP schedule",
                          {"kind": "e2e", "case": case, "keylog": kl, "plain": {d: plain[d].hex() for d in "cs"},
